@@ -189,6 +189,22 @@ class QHalf(Q.QOracle):
       ctx.probe("f_is_0")
     want = s64 + f * (y164 - s64)
     bad = np.abs(y64 - want) > tol
+    unstable = np.zeros(bad.shape, dtype=bool)
+    if traced and bad.any():
+      # graph mode may reassociate the float expression in front of the
+      # rounding: an element whose pre-rounding value sits on a tie can land on
+      # the other code in a traced call.  Such elements are identified on the
+      # eager fully-quantizing sibling alone (its output moves when x is scaled
+      # by 1 +- 3e-6) and not judged through a trace.
+      for fac in (1.0 + 3e-6, 1.0 - 3e-6):
+        xp = (x.astype(np.float64) * fac).astype(np.float32)
+        y1p = w.call_raw(self.ref1[qi], xp, op.get("sub", 0)).astype(
+            np.float64)
+        unstable |= np.abs(y1p - y164) > tol + 1e-5 * np.abs(y164)
+      w.call_raw(self.ref1[qi], x, op.get("sub", 0))   # restore last-call state
+      if (bad & unstable).any():
+        ctx.probe("traced_rounding_tie_not_judged")
+      bad &= ~unstable
     if bad.any():
       i = int(np.argmax((np.abs(y64 - want) - tol).reshape(-1)))
       ctx.violation("%s|not-interpolated" % c,
@@ -205,6 +221,7 @@ class QHalf(Q.QOracle):
     ys = w.call_raw(sib, x, op.get("sub", 0))
     ctx.checked()
     err = np.abs(ys.astype(np.float64) - y64)
+    err = np.where(unstable, 0.0, err)    # ties judged through a trace: no
     if (err > tol).any():
       i = int(np.argmax((err - tol).reshape(-1)))
       ctx.violation("%s|constructor-constant-differs-from-updated" % c,
